@@ -101,7 +101,8 @@ class Roles:
         return r[:-3] if self.inverted(r) else r + '-of'
 
     def is_canonical_inversion(self, r):
-        return self.invert(self.invert(r)) == r
+        """r is what inversion-canonicalisation returns for r: a defined role, or a double-inversion fixed point"""
+        return self.defined(r) or self.invert(self.invert(r)) == r
 
     def chain_base(self, r):
         b = r
